@@ -13,6 +13,8 @@
 //	builtinFunctions …          keys of Functions / AggregateFunctions / AnalyticFunctions and the names the
 //	                            evaluator and the scanner treat specially
 //	strToTimeIndexSites         every s[i] of value.StrToTime with the path conditions on len(s)
+//	assertSites …               every unchecked type assertion x.(T) of the hand-written files with its guard class and the table of
+//	                            possible dynamic types of its sources: functions, parser-node fields (assertsites.go, grammar.go)
 //	argIndexSites …             every index / slice expression on an argument slice of the built-in functions (and every
 //	                            constant index of lib/query, lib/action, lib/cli, lib/option) with the length conditions that
 //	                            dominate it; uses without a rule; the count checks of every function name (argfacts.go)
@@ -1069,6 +1071,10 @@ func strList(xs []string) string {
 func main() {
 	root := repoRoot()
 	pkgs := loadAll(root)
+	if os.Getenv("ERRFACTS_ONLY_ASSERTS") != "" { // development aid: the type-assertion section alone
+		printAssertSites(assertSites(pkgs, root))
+		return
+	}
 	if os.Getenv("ERRFACTS_ONLY_ARGS") != "" { // development aid: the argument-slice section alone
 		printArgFacts(argFacts(pkgs))
 		return
@@ -1187,22 +1193,7 @@ func main() {
 	}
 	fmt.Println("]")
 	fmt.Println()
-	fmt.Println("/-- type assertions without the comma-ok form in lib/action and lib/query/built_in_command.go: ⟨file, function, expression, inside the matching type-switch clause, occurrences⟩ -/")
-	fmt.Println("def uncheckedAssertions : List AssertFact := [")
-	as := uncheckedAssertions(pkgs)
-	for i, a := range as {
-		sep := ","
-		if i == len(as)-1 {
-			sep = ""
-		}
-		b := "false"
-		if a.safe {
-			b = "true"
-		}
-		fmt.Printf("  ⟨%s, %s, %s, %s, %d⟩%s\n", leanStr(a.file), leanStr(a.fn), leanStr(a.expr), b, a.count, sep)
-	}
-	fmt.Println("]")
-	fmt.Println()
+	printAssertSites(assertSites(pkgs, root))
 	printArgFacts(argFacts(pkgs))
 	fmt.Println("end Csvq.Gen")
 }
